@@ -410,6 +410,17 @@ func c07Run(o *vh.Out, inAny any) {
 	var bidiTerm = "None"
 	if c.Start < c.End && c.Start >= 0 && c.End <= len(c.Text) {
 		norm := []rune(string(c.Text[c.Start:c.End])) // invalid runes become U+FFFD, one for one
+		// the run list the model takes as its input: x/text paragraph by paragraph (a separator closes its paragraph),
+		// ends shifted to the range, neighbours with the same direction merged - what splitByBidi builds
+		var flatEnds []int
+		var flatDirs []bool
+		addRun := func(e int, rtl bool) {
+			if n := len(flatEnds); n > 0 && flatDirs[n-1] == rtl {
+				flatEnds[n-1] = e
+				return
+			}
+			flatEnds, flatDirs = append(flatEnds, e), append(flatDirs, rtl)
+		}
 		for a := 0; a < len(norm); {
 			b := a
 			for b < len(norm) && !c07IsB(norm[b]) {
@@ -420,6 +431,9 @@ func c07Run(o *vh.Out, inAny any) {
 			}
 			ends, dirs, ok := c07Bidi(norm[a:b], rtlPar)
 			if ok {
+				for k := range ends {
+					addRun(a+ends[k], dirs[k])
+				}
 				prev := 0
 				for k, e := range ends {
 					for j := prev; j <= e && a+j < b; j++ {
@@ -433,16 +447,16 @@ func c07Run(o *vh.Out, inAny any) {
 					}
 					prev = e + 1
 				}
+			} else {
+				addRun(b-1, rtlPar) // no run from x/text: the paragraph as it is, in the caller's direction
 			}
 			a = b
 		}
-		if ends, dirs, ok := c07Bidi(norm, rtlPar); ok {
-			el := make([]string, len(ends))
-			for k := range ends {
-				el[k] = vh.Tuple(vh.Zi(ends[k]), vh.Bool(dirs[k]))
-			}
-			bidiTerm = vh.Some(vh.List(el))
+		el := make([]string, len(flatEnds))
+		for k := range flatEnds {
+			el[k] = vh.Tuple(vh.Zi(flatEnds[k]), vh.Bool(flatDirs[k]))
 		}
+		bidiTerm = vh.Some(vh.List(el))
 	}
 	keys := []language.Script{0}
 	if c.Hint {
